@@ -12,7 +12,7 @@ from vf import specfun as S
 from vf import specfun_k as K
 from vf import refmodel
 from vf.specfun import args as A, real_in, complex_in, near, integer, half_integer, choice
-from vf.specfun_k import RG, Custom, dyadic, near_int, near_half_int, near_npint, polar, polar_log, uniform, uniform_bits, \
+from vf.specfun_k import HP, RG, Custom, dyadic, near_int, near_half_int, near_npint, polar, polar_log, uniform, uniform_bits, \
     one_of, flat
 from vf.catalog import R, C, I, raw_from_float, canon, raw_rand
 
@@ -33,7 +33,7 @@ LEVEL_TEXT = ('exploration: ~4*10^3 (quick) / ~10^5 (thorough) evaluations over 
 LEVEL_NOTE = ('trusted base: released mpmath 1.3.0 + the tree at 3p+300 bits as consensus (a defect shared by both at all '
               'precisions is invisible unless a defining relation covers the cell); inputs not generated are not covered')
 TECHNIQUE = 'runtime reference-model monitor: consensus / defining-relation oracle on every observed value; verified-candidate oracle for Lambert W'
-SHARD_TIMEOUT = {'quick': 1500, 'thorough': 4500}
+SHARD_TIMEOUT = {'quick': 2400, 'thorough': 6000}
 CASES = {'quick': 300, 'thorough': 7000}
 BUDGET = {'quick': 50, 'thorough': 420}
 NSHARDS = 16
@@ -730,14 +730,14 @@ def lambertw_check(tree_mp, rec, prop, label, p, zspec, k):
     return v
 
 
-def make_lw_cell(label, zgen, kgen, heavy=False, precs=None):
+def make_lw_cell(label, zgen, kgen, heavy=False, precs=None, weight=1):
     def check(tree_mp, rec, r, p, bits, cell):
         return lambertw_check(tree_mp, rec, cell[0], label, p, zgen(r, bits), kgen(r))
 
     def rp(tree_mp, rec, c, cell):
         a = S._unfmt(c['args'])
         return lambertw_check(tree_mp, rec, cell[0], label, c['prec'], a[0], a[1][1])
-    cell = Custom(label, check, heavy=heavy, precs=precs, tmax=6)
+    cell = Custom(label, check, heavy=heavy, precs=precs, tmax=6, weight=weight)
     cell.replay = rp
     return cell
 
@@ -752,6 +752,23 @@ def near_bp(kmin, kmax, side, complex_off=False):
         re = K.frac_raw(f)
         if complex_off:
             return C(re, raw_rand(r, min(b, 30), -kmax, -kmin))
+        return R(re)
+    return g
+
+
+def near_bp_exact(cmin, cmax, side, imag=False):
+    """-1/e rounded to c+40 bits, + side*2^-c  (|z + 1/e| = 2^-c up to 2^-(c+40)); optional imaginary part 2^-(c..c+20)"""
+    def g(r, b):
+        rm = K.rmp()
+        c = r.randint(cmin, cmax)
+        with K.at_prec(rm, c + 40):
+            v = -rm.exp(-1)
+            base = K.spec_fraction(R(tuple(int(t) if i == 1 else t for i, t in enumerate(v._mpf_))))
+        s = side if side else r.choice([-1, 1])
+        re = K.frac_raw(base + Fraction(s, 2 ** c))
+        if imag:
+            im = canon(r.randint(0, 1) if imag is True else imag, r.choice([1, 3, 5]), -(c + r.randint(0, 20)))
+            return C(re, im)
         return R(re)
     return g
 
@@ -802,7 +819,33 @@ def t_lambertw():
         make_lw_cell('|k|-1000..10^6/real', real_in(-20, 30), kbig),
         make_lw_cell('any-k/negative-real-axis', real_in(-30, 30, 1), kany),
         make_lw_cell('any-k/imag-axis', lambda r, b: C((0, 0, 0, 0), raw_rand(r, b, -20, 30)), kany),
+        # distance 2^-c from the branch point with c beyond the 53 bits of a double (all precisions)
+        make_lw_cell('k=0/real-|z+1/e|=2^-c,c-40..120-above', near_bp_exact(40, 120, 1), k0),
+        make_lw_cell('k=-1/real-|z+1/e|=2^-c,c-40..120-above', near_bp_exact(40, 120, 1), km1),
+        make_lw_cell('k=0,+-1/complex-|z+1/e|=2^-c,c-40..120', near_bp_exact(40, 120, 0, True), lambda r: r.choice([0, -1, 1])),
+        # high-precision stratum (2500 / 3000 / 3500 bits)
+        HP(make_lw_cell('hp/k=0/real-|z+1/e|=2^-c,c-40..120-above', near_bp_exact(40, 120, 1), k0, weight=2)),
+        HP(make_lw_cell('hp/k=-1/real-|z+1/e|=2^-c,c-40..120-above', near_bp_exact(40, 120, 1), km1, weight=2)),
+        HP(make_lw_cell('hp/k=1/complex-|z+1/e|=2^-c,c-40..120,Im<0', near_bp_exact(40, 120, 0, 1), k1, weight=2)),
+        HP(make_lw_cell('hp/k=-1/complex-|z+1/e|=2^-c,c-40..120,Im>0', near_bp_exact(40, 120, 0, 0), km1)),
+        HP(make_lw_cell('hp/k=0/real-below-branch-point', near_bp_exact(40, 120, -1), k0)),
+        HP(make_lw_cell('hp/k=0/real-pos-moderate', uniform_bits(0.0, 50.0), k0)),
+        HP(make_lw_cell('hp/any-k/complex-moderate', polar_log(-3, 6), kany)),
     ]
+
+
+def hp_cells():
+    return {
+        'ellipk': [HP(RG('hp/m-in-(0,1)', A(m_01))), HP(RG('hp/m-near-1-below', A(below1(6, 300))))],
+        'ellipe': [HP(RG('hp/m-in-(0,1)', A(m_01))), HP(RG('hp/m-near-1-below', A(below1(6, 300))))],
+        'ellipf': [HP(RG('hp/|phi|<=pi/2,m-in-(0,1)', A(phi_in, m_01)))],
+        'agm': [HP(RG('hp/positive', A(pos, pos))), HP(RG('hp/complex', A(cplx_any, cplx_any)))],
+        'elliprf': [HP(RG('hp/positive', A(pos, pos, pos)))],
+        'elliprc': [HP(RG('hp/x-near-y', near_equal(pos, 6, 200)))],
+        'jtheta': [HP(RG('hp/theta3/z-real,|q|<0.5', A(z_re, q_mod), fn=f_jtheta(3))), HP(RG('hp/theta1/z-complex,q-real', A(z_cplx, q_mod), fn=f_jtheta(1)))],
+        'qp': [HP(RG('hp/euler/q-real-|q|<0.5', A(q_mod), fn=f_qp('euler')))],
+        'kleinj': [HP(RG('hp/tau-standard', A(tau_std)))],
+    }
 
 
 TABLE = {
@@ -812,6 +855,10 @@ TABLE = {
     'qfrom': t_from('qfrom'), 'mfrom': t_from('mfrom'), 'kfrom': t_from('kfrom'), 'taufrom': t_from('taufrom'), 'qbarfrom': t_from('qbarfrom'),
     'lambertw': t_lambertw(), 'qp': t_qp(), 'qgamma': t_qgamma(), 'qhyper': t_qhyper(),
 }
+
+
+for _f, _cells in hp_cells().items():
+    TABLE[_f] = TABLE[_f] + _cells
 
 
 def shards(tier, seed):
